@@ -52,6 +52,9 @@ def mul_params(f):
 
 
 NOCARRY = [f for f in FIELDS64 if "secp256k1" not in f]
+# 10- and 12-limb fields: some round lemmas end as solver 'unknown' at 400 s on the current engine (they went through in an
+# earlier state of the encoder): not registered in any tier
+MUL_UNSTABLE = ["ecc/bw6-633/fp", "ecc/bw6-761/fp"]
 MUL_SLOW = ["ecc/bls12-381/fp", "ecc/bw6-633/fp", "ecc/bw6-761/fp"]  # 6/10/12 limbs: round lemmas need the long timeout
 
 PROPS["C01"] = dict(
@@ -59,7 +62,7 @@ PROPS["C01"] = dict(
          [Job(f, ["C01/exp.go.tmpl"], label=f + "#exp", params=dict(ExpBits=8, ExpUnroll=18, PkgSuffix=f.split("/", 1)[1] if f.startswith("ecc/") else f.split("/")[-1])) for f in ALL_FIELDS] +
          [Job(f, ["C01/common.go.tmpl", "C01/mul_nocarry.go.tmpl"], label=f + "#mul",
               tier="thorough" if f in MUL_SLOW else "quick", timeout_ms=400000 if f in MUL_SLOW else 150000, jobs=8 if f in MUL_SLOW else 4,
-              params=mul_params(f)) for f in NOCARRY],
+              params=mul_params(f)) for f in NOCARRY if f not in MUL_UNSTABLE],
     level_text="Bounded proof per field package: linear operations and predicates at full width against math/big (all 23 "
                "fields); Montgomery multiplication of the no-carry fields by one lemma per round (cut at each multiplier word, "
                "the code's quotient word as witness) plus the final subtraction and an arithmetic closing step; Exp by any "
@@ -68,9 +71,10 @@ PROPS["C01"] = dict(
                "x_r*Y <= (2^64-1)(q-1) as the only assumed fact; counterexamples found in that abstraction are re-solved with one "
                "operand pinned (exact query) and replayed natively. purego build is what is encoded.",
     explanation="linear ops: Add Sub Neg Double Halve Select Equal NotEqual IsZero IsOne smallerThanModulus SetZero SetOne; "
-                "Mul (15 of 18 no-carry fields in the quick tier, the 6/10/12-limb base fields in the thorough tier); Exp",
+                "Mul (15 no-carry fields in the quick tier, bls12-381/fp in the thorough tier; not the 10/12-limb fields); Exp",
     bounds="full-width operands < q; Exp: |k| < 2^8 symbolic + 32 special exponents",
-    outside="Square, fromMont, Inverse, Sqrt, Legendre, BatchInvert, small-field Mul, secp256k1 (CIOS) Mul: not yet covered; assembly back ends (C09)",
+    outside="Square, fromMont, Inverse, Sqrt, Legendre, BatchInvert, small-field Mul, secp256k1 (CIOS) Mul, Mul of the 10- and 12-limb fields "
+            "(bw6-633/fp, bw6-761/fp: round lemmas time out): not covered; assembly back ends (C09)",
     assumptions=["operands are reduced", "umul(a,b) denotes a*b: only the row bound is used"],
 )
 
@@ -160,7 +164,9 @@ PROPS["C20"] = dict(
 )
 
 PROPS["C08"] = dict(
-    jobs=[Job(f, ["C08/conv.go.tmpl"], skip_quick="H_SetBytes_Exact" if f in ("ecc/bw6-633/fp", "ecc/bw6-761/fp") else None,
+    # 12-limb field: SetBytes on values >= q and SetBigInt are at the edge of the solver time limit (unknown on some runs): not registered
+    jobs=[Job(f, ["C08/conv.go.tmpl"], skip_quick="H_SetBytes_Exact" if f == "ecc/bw6-633/fp" else None,
+              skip="H_SetBytes_Exact|H_SetBigInt" if f == "ecc/bw6-761/fp" else None,
               timeout_ms=60000) for f in FIELDS64],
     level_text="Bounded proof, for the 20 multi-limb fields, that every byte / big.Int / word conversion entry point is exactly "
                "'parse, validate, reduce, then toMont' resp. 'fromMont, then serialise': Bytes, Marshal, BigEndian/LittleEndian "
@@ -171,7 +177,8 @@ PROPS["C08"] = dict(
                "Montgomery lemma of C01 (Mul with the constant rSquare; fromMont not yet proved). Text formats (decimal, hex, JSON) "
                "are outside this technique (strconv / big text parsing loops).",
     bounds="all byte values symbolic; lengths as listed; |v| < 2^(64*Limbs+64)",
-    outside="text and JSON; Vector WriteTo/ReadFrom/AsyncReadFrom; SetInterface; one-word fields (goldilocks, koalabear, babybear)",
+    outside="text and JSON; Vector WriteTo/ReadFrom/AsyncReadFrom; SetInterface; one-word fields (goldilocks, koalabear, babybear); "
+            "on bw6-761/fp (12 limbs) SetBigInt and SetBytes for values >= q (solver time limit)",
     assumptions=["toMont / fromMont as opaque functions of the limb vector"],
 )
 
@@ -279,12 +286,13 @@ def digit_harnesses():
 
 PROPS["C04"] = dict(
     jobs=[Job("ecc/" + c, ["C04/digits.go.tmpl"], params=dict(Curve=c, DigitHarnesses=digit_harnesses()), jobs=8, timeout_ms=90000,
-              skip_quick="H_Digits_C9|H_Digits_C7" if c == "bw6-633" else "H_Digits_C9") for c in MSM_CURVES] +
+              # window 9 (and 7 on bw6-633) only went through with the machine otherwise idle and starve the other lemmas when run together: not registered
+              skip="H_Digits_C9|H_Digits_C7" if c == "bw6-633" else "H_Digits_C9") for c in MSM_CURVES] +
          [Job("ecc/" + c, ["C04/chunks.go.tmpl"], params=dict(Curve=c, C=4), label=c + "#chunk") for c in MSM_CURVES] +
          [Job("ecc/" + c, ["C04/msm_e2e.go.tmpl"], params=dict(Curve=c, MsmBits=10), label=c + "#e2e") for c in MSM_CURVES],
     level_text="Bounded proof for G1 of the 7 MSM curves, by components: (1) signed-digit recoding of partitionScalars, one lemma "
                "per chunk from an arbitrary incoming carry (cut at the loop head), for full-width scalars < r and every window size "
-               "c in 4..8 (9, and 7 on bw6-633 whose bit-126 window lemma does not finish in the quick time limit, in the thorough tier), plus the telescoping closing step for c in 4..16 and zero scalars; (2) the bucket "
+               "c in 4..8 (not 7 on bw6-633, whose bit-126 window lemma does not finish in the time limit), plus the telescoping closing step for c in 4..16 and zero scalars; (2) the bucket "
                "processor for one chunk with symbolic digits and (3) the Horner reduction over chunk totals in the free-module "
                "interpretation; (4) MultiExp end to end for two points with symbolic 10-bit scalars through the sequential schedule "
                "(semaphore path and default path), and its error reporting.",
@@ -293,7 +301,7 @@ PROPS["C04"] = dict(
                "GOMAXPROCS / interleavings and liveness under all schedules are outside this technique (DESIGN.md section 4).",
     bounds="digits: scalars < r full width, c in 4..8 quick; chunk processor: 3 points, c = 4, every digit encoding; reduction: "
            "4 chunks; end to end: n = 2, scalars < 2^10, NbTasks in {1, 8}, NumCPU = 4",
-    outside="schedules; window sizes 10..16 for the digit lemmas (statistics use floating point); batch-affine processor; "
+    outside="schedules; window sizes 9..16 for the digit lemmas (statistics use floating point); batch-affine processor; "
             "G2; Fold; recursive splitting; n > 2 end to end",
     assumptions=["module summaries of point operations", "Bits() of a scalar are its regular-form limbs (C08)", "sequential schedule"],
 )
@@ -342,7 +350,7 @@ def edwards_params(pkg):
 # stream decoder for slices of G1 points (G2 slices: the same harness runs for tens of minutes with solver timeouts: not registered)
 C07_JOBS += [Job("ecc/" + c, ["C07/pointcodec.go.tmpl", "C07/stream.go.tmpl"], params=codec_params(c, "G1Affine"), jobs=4,
                  label="ecc/%s:streamG1" % c, only="H_G1Affine_Stream", tier="quick" if c in ("bn254", "grumpkin", "stark-curve") else "thorough")
-             for c in PAIRING_CURVES + ["grumpkin", "stark-curve"]]
+             for c in ["bn254", "bls12-381", "grumpkin", "stark-curve"]]
 C07_JOBS += [Job(pkg, ["C07/edwards.go.tmpl"], params=edwards_params(pkg), jobs=4) for pkg in EDWARDS]
 
 # G2 over E4 (bls24-*): four base-field coordinates per tower element make the generic-flag harnesses run for tens of
@@ -360,7 +368,7 @@ PROPS["C07"] = dict(
                "predicate when requested; the consumed length is one of the two sizes and within the buffer; every accepted string "
                "re-encodes (Bytes / RawBytes) to the identical bytes, except the all-zero raw string for infinity; short buffers are "
                "rejected without panic; every subgroup point round-trips through both encodings. Stream decoder for slices of G1 "
-               "points (bn254, grumpkin, stark-curve quick; the other curves thorough): a length-prefixed stream of 2 compressed or "
+               "points (bn254, grumpkin, stark-curve quick; bls12-381 thorough; the other curves ran clean once but take 5-15 min each and are not registered): a length-prefixed stream of 2 compressed or "
                "raw items read through a short-read reader decodes exactly when every item decodes on its own, to the same points, "
                "without keeping stale destination data, with BytesRead = stream length; every truncation is an error. Twisted "
                "Edwards points (8 packages): accepted strings have a canonical Y and re-encode to themselves.",
